@@ -335,6 +335,9 @@ package websocket
 //@   prop C08
 //@   requires s.codecConn != nil && (s.role == RoleClient || s.role == RoleServer)
 //@   remember after call (*Stream).Flush: flushOK = result == nil
+//@   remember after call (*Stream).Flush: flushEOF = result == io.EOF
 //@   // reads go on only while the stream is open or we are waiting for the peer's Close
 //@   assert call (*Stream).nextFrame: s.state == StateActive || s.state == StateClosedByUs
 //@   ensures [end-of-stream] flushOK && old(s.state) != StateActive && old(s.state) != StateClosedByUs ==> err == io.EOF
+//@   // a failed flush is reported as what it is, not as end of stream
+//@   ensures [flush-error] !flushOK ==> err != nil && (err == io.EOF ==> flushEOF)
